@@ -273,11 +273,18 @@ impl Property for C16Prop {
 
 /// two shared cells, each updated from the content of the other: (setup yielding (a, b, f, g), f and g
 /// take the iteration number; every value they return and the final contents are subsets of `mask`)
-const CROSS: [(&str, i64); 4] = [
+const CROSS: [(&str, i64); 9] = [
     ("a := mut 5; b := mut 48; f := (k: int) -> int { return a |= *b; }; g := (k: int) -> int { return b |= *a; }; (a, b, f, g)", 0x35),
     ("a := mut 5; b := mut 48; f := (k: int) -> int { a = *b; return a |= *b; }; g := (k: int) -> int { b = *a; return b |= *a; }; (a, b, f, g)", 0x35),
     ("a := mut 255; b := mut 15; f := (k: int) -> int { return a &= *b | 3; }; g := (k: int) -> int { return b &= *a | 12; }; (a, b, f, g)", 0xff),
     ("a := mut [int] [1]; b := mut [int] [2]; f := (k: int) -> int { return std.len(a = *b) & 1; }; g := (k: int) -> int { return std.len(b = *a) & 1; }; (a, b, f, g)", 1),
+    // cells that contain themselves (directly, inside an array / tuple / struct, or one another),
+    // rendered as text by some executions while others assign to them
+    ("a := mut any 0; a = a; b := 0; f := (k: int) -> int { return std.len(std.convert.to_string(a)) & 0; }; g := (k: int) -> int { a = a; return 0; }; (a, b, f, g)", 0),
+    ("a := mut any 0; a = [a, a]; b := 0; f := (k: int) -> int { return std.len(std.convert.to_string([a])) & 0; }; g := (k: int) -> int { a = [a, a]; return 0; }; (a, b, f, g)", 0),
+    ("a := mut any 0; a = (1, a); b := 0; f := (k: int) -> int { return std.len(std.convert.to_string(a)) & 0; }; g := (k: int) -> int { a = (k, a); return 0; }; (a, b, f, g)", 0),
+    ("a := mut any 0; b := mut any 1; a = b; b = a; f := (k: int) -> int { return std.len(std.convert.to_string((a, b))) & 0; }; g := (k: int) -> int { if k % 2 == 0 { a = b; } else { b = a; }; return 0; }; (a, b, f, g)", 0),
+    ("a := mut any 0; a = struct{me := a}; b := 0; f := (k: int) -> int { return std.len(std.convert.to_string(a)) & 0; }; g := (k: int) -> int { a = struct{me := a}; return 0; }; (a, b, f, g)", 0),
 ];
 
 /// Threads alternately running f (updates a from b) and g (updates b from a). No execution may
@@ -1620,7 +1627,7 @@ pub fn run(session: &Session) -> i32 {
         }
     }
     session.finish(
-        "workloads on real threads released by a barrier and repeated: (orbit) T threads x M identical updates `c op= k` through one shared function value for updates with an injective orbit (+= -= *= <<= >>= /= **= ^=): the multiset of values returned by the assignments must be exactly {f(x0)..f^(TM)(x0)} and the final content f^(TM)(x0); (bits) every single update owns one bit (|= &= ^=): each returned value shows the caller's own update and the final content shows all; (history) 3 threads x 1-3 operations over all 12 assignment operators incl. failing ones, brute-force linearizability of returned values + final content against the i128 model; (mix) incrementing threads + threads applying an identity update of each other operator family (/= 1, **= 1, <<= 0, >>= 0, %= MAX, *= 1, -= 0, |= 0, &= -1) + reading threads on one cell: no increment lost, every increment returns a distinct value, reads/identity updates see a non-decreasing value in range; (append) T threads x M `c += [k]` / `c += \"k,\"` / `c += 1.0` on one shared array, string, float or nested-array cell: the sizes returned by the assignments are exactly 1..TM, each once, and the final content holds every token exactly once; (cross) threads alternately updating each of two cells from the content of the other: every call returns a value within the expected mask, and the workers are watched - if no call completes for 40 s the executions are reported as deadlocked; (show) threads rendering a cell as text while others update it: every rendering has the sequential shape; (shared-iterator) T threads pulling from one array iterator over n elements are handed at most n elements, each from the array; (isolated-code) six whole programs whose top-level function literals capture cells the program creates, parsed once and executed three times by each of 8 threads: every execution gives the single-execution result; (isolated) 16 threads executing the same Code objects (loops, closures, recursion, iterator helpers @ ? ~ $] $+ $* $|| $& \\ ? T) must each get the sequential result. Workload shapes are drawn from VERIF_SEED; interleavings are whatever the scheduler produces. Non-trivial = a repetition in which at least two threads' execution intervals overlapped; distinct by workload and repetition.",
+        "workloads on real threads released by a barrier and repeated: (orbit) T threads x M identical updates `c op= k` through one shared function value for updates with an injective orbit (+= -= *= <<= >>= /= **= ^=): the multiset of values returned by the assignments must be exactly {f(x0)..f^(TM)(x0)} and the final content f^(TM)(x0); (bits) every single update owns one bit (|= &= ^=): each returned value shows the caller's own update and the final content shows all; (history) 3 threads x 1-3 operations over all 12 assignment operators incl. failing ones, brute-force linearizability of returned values + final content against the i128 model; (mix) incrementing threads + threads applying an identity update of each other operator family (/= 1, **= 1, <<= 0, >>= 0, %= MAX, *= 1, -= 0, |= 0, &= -1) + reading threads on one cell: no increment lost, every increment returns a distinct value, reads/identity updates see a non-decreasing value in range; (append) T threads x M `c += [k]` / `c += \"k,\"` / `c += 1.0` on one shared array, string, float or nested-array cell: the sizes returned by the assignments are exactly 1..TM, each once, and the final content holds every token exactly once; (cross) threads alternately updating each of two cells from the content of the other, and threads rendering a cell that contains itself (directly, in an array / tuple / struct, or through a second cell) while others assign to it: every call returns a value within the expected mask, and the workers are watched - if no call completes for 40 s the executions are reported as deadlocked; (show) threads rendering a cell as text while others update it: every rendering has the sequential shape; (shared-iterator) T threads pulling from one array iterator over n elements are handed at most n elements, each from the array; (isolated-code) six whole programs whose top-level function literals capture cells the program creates, parsed once and executed three times by each of 8 threads: every execution gives the single-execution result; (isolated) 16 threads executing the same Code objects (loops, closures, recursion, iterator helpers @ ? ~ $] $+ $* $|| $& \\ ? T) must each get the sequential result. Workload shapes are drawn from VERIF_SEED; interleavings are whatever the scheduler produces. Non-trivial = a repetition in which at least two threads' execution intervals overlapped; distinct by workload and repetition.",
         false,
         &["schedules are sampled, not enumerated: a race that needs one specific interleaving can be missed; a deadlock among the workers of the cross workload is reported as a violation after 40 s without a completed call (calls take microseconds); any other hang ends in the watchdog (exit 2)",
           "overlap is measured by wall-clock intervals of the worker threads"],
